@@ -95,6 +95,12 @@ macro_rules! downcast_op {
                 DataType::FixedSizeBinary(_) => {
                     downcast_dict_op!(key, FixedSizeBinaryArray, $array, $op$(, $arg)*)
                 }
+                DataType::Utf8View => {
+                    downcast_dict_op!(key, StringViewArray, $array, $op$(, $arg)*)
+                }
+                DataType::BinaryView => {
+                    downcast_dict_op!(key, BinaryViewArray, $array, $op$(, $arg)*)
+                }
                 d => unreachable!("cannot downcast {} dictionary value to byte array", d),
             },
             d => unreachable!("cannot downcast {} to byte array", d),
